@@ -108,3 +108,11 @@ package trusted
 //@ trusted func os.OpenFile
 //@   ensures file: r1 == nil ==> r0 != nil
 //@   assigns nothing
+
+//@ trusted func google.golang.org/grpc/status.Error
+//@   ensures nonnil: r0 != nil
+//@   assigns nothing
+
+//@ trusted func google.golang.org/grpc/status.Errorf
+//@   ensures nonnil: r0 != nil
+//@   assigns nothing
